@@ -913,6 +913,31 @@ theorem session_told_exactly_once (pre mid post : List LEv) (hpre : pre.count .a
 
 example : (lrun ⟨false, 0⟩ [.lost, .attach, .lost, .lost, .lost]).told = 1 := by decide
 
+/-! ## non-vacuity: concrete instances of the hypotheses used above -/
+
+-- rs_accept_iff / rs_same_serializer: an asyncio client (exp 15, JSON) against a Twisted server announcing 2^12
+example : clientRequest .asyncio 15 1 = some [0x7F, 0xF1, 0, 0] := by decide
+example : acceptSpec .twisted [1, 3] 0x7F 0xF1 0 0 := by decide
+example : hsEval ⟨.twisted, .server, [1, 3], 3, 4096⟩ 0x7F 0xF1 0 0 =
+    { accepted := true, ser := 1, maxSend := some 16777216, written := [0x7F, 0x31, 0, 0], tclose := .none, exc := none } := by
+  decide
+example : hsEval ⟨.asyncio, .client, [1], 15, 16777216⟩ 0x7F 0x31 0 0 =
+    { accepted := true, ser := 1, maxSend := some 4096, written := [], tclose := .none, exc := none } := by decide
+-- refusals
+example : (hsEval ⟨.twisted, .server, [1], 15, 16777216⟩ 0x7E 0xF1 0 0).tclose = .abort := by decide
+example : (hsEval ⟨.asyncio, .client, [1], 15, 16777216⟩ 0x7F 0xF1 0 1).tclose = .close := by decide
+example : (hsEval ⟨.twisted, .client, [1], 15, 16777216⟩ 0x7F 0xF1 0 1).accepted = true := by decide
+-- rs_hs_segmentation_independent: five reads (one empty) through handshake and a frame, asyncio server
+example : connFeedAll ⟨.asyncio, .server, [1], 15, 16777216⟩ Phase.init
+      [[0x7F], [], [0x11, 0], [0, 0, 0, 0, 1], [0x41, 0]]
+    = (.established ⟨[0], none⟩, [.written [0x7F, 0xF1, 0, 0], .attach 1 1024, .string [0x41]]) := by decide
+-- aio_delivers / tw_delivers: settled tails
+example : Settled (aioFraming 100) [0, 0, 0] := by unfold Settled; decide
+example : Settled (aioFraming 100) [0, 0, 0, 5, 1, 2] := by unfold Settled; decide
+example : Settled (twFraming 512) [0, 0, 2] := by unfold Settled; decide
+-- rs_announce
+example : twAnnounceExp 1000 = 1 ∧ twMaxRecv 1000 = 1024 ∧ twAnnounceExp 16777216 = 15 ∧ twAnnounceExp 512 = 0 := by decide
+
 end Abverif.RawSocket
 
 namespace Abverif.WsSub
